@@ -17,13 +17,11 @@ pub struct HeapShape {
     pub r: usize,
     /// blocks waiting beneath deferred blocks (not reachable from roots)
     pub w: usize,
-    /// stored header per block in R∪W
+    /// stored header per block in R∪W (filled only when a snapshot is recorded)
     pub counts: BTreeMap<u64, u64>,
-    /// for each block in R∪W: number of references counted
-    pub refs: BTreeMap<u64, u64>,
 }
 
-#[derive(Clone, Copy, PartialEq, Eq)]
+#[derive(Clone, Copy, PartialEq, Eq, Debug)]
 enum St {
     L,
     D,
@@ -56,7 +54,7 @@ fn check_block(mem: &Mem, a: u64, frontier: Option<u64>, what: &str) -> Res<()> 
 
 /// Evaluate the C09 invariant. `roots` are the first temporaries of all non-ext variables of the
 /// marker's environment (one entry per variable occurrence).
-pub fn check_heap(mem: &Mem, heap_reg: V, free_reg: V, roots: &[(usize, V)]) -> Res<HeapShape> {
+pub fn check_heap(mem: &Mem, heap_reg: V, free_reg: V, roots: &[(usize, V)], want_counts: bool) -> Res<HeapShape> {
     if !heap_reg.is_def() || !free_reg.is_def() {
         return Err(Viol::new(Class::Heap, "heap or free register undefined at statement boundary"));
     }
@@ -94,15 +92,20 @@ pub fn check_heap(mem: &Mem, heap_reg: V, free_reg: V, roots: &[(usize, V)]) -> 
         }
     }
     let nblocks = (frontier - mem.heap_base) / BLOCK;
-    let mut state: BTreeMap<u64, St> = BTreeMap::new();
+    // per block below the frontier: state (None = not accounted for yet) and references counted
+    let mut state: Vec<Option<St>> = vec![None; nblocks as usize];
+    let mut refs: Vec<u32> = vec![0; nblocks as usize];
+    let mut accounted = 0u64;
+    let idx = |a: u64| ((a - mem.heap_base) / BLOCK) as usize;
     // linear list
     let mut l = Vec::new();
     let mut cur = heap_reg.v;
     loop {
         check_block(mem, cur, Some(frontier), "linear free list")?;
-        if state.insert(cur, St::L).is_some() {
+        if state[idx(cur)].replace(St::L).is_some() {
             return Err(Viol::new(Class::Heap, format!("linear free list is cyclic at heap+{:#x}", rel(cur))));
         }
+        accounted += 1;
         l.push(cur);
         let h = word(mem, cur, "linear list link")?;
         if h == 0 {
@@ -112,8 +115,8 @@ pub fn check_heap(mem: &Mem, heap_reg: V, free_reg: V, roots: &[(usize, V)]) -> 
     }
     for b in &d {
         check_block(mem, *b, Some(frontier), "deferred list")?;
-        match state.insert(*b, St::D) {
-            None => {}
+        match state[idx(*b)].replace(St::D) {
+            None => accounted += 1,
             Some(St::L) => {
                 return Err(Viol::new(Class::Heap, format!("block heap+{:#x} is on both free lists", rel(*b))));
             }
@@ -122,25 +125,43 @@ pub fn check_heap(mem: &Mem, heap_reg: V, free_reg: V, roots: &[(usize, V)]) -> 
             }
         }
     }
-    // reachable from roots
-    let mut refs: BTreeMap<u64, u64> = BTreeMap::new();
+    // reachable from roots; the description of where a pointer was found is only built on failure
+    #[derive(Clone, Copy)]
+    enum From {
+        Root(usize),
+        Field(u64, u64),
+        DField(u64, u64),
+        WField(u64, u64),
+    }
+    let text = |f: From| -> String {
+        match f {
+            From::Root(pos) => format!("root at position {pos}"),
+            From::Field(f, b) => format!("field {f} of block heap+{:#x}", rel(b)),
+            From::DField(f, b) => format!("field {f} of deferred block heap+{:#x}", rel(b)),
+            From::WField(f, b) => format!("field {f} of waiting block heap+{:#x}", rel(b)),
+        }
+    };
     let mut work: Vec<u64> = Vec::new();
-    let mut visit = |p: u64, st: St, from: &str, state: &mut BTreeMap<u64, St>, work: &mut Vec<u64>, refs: &mut BTreeMap<u64, u64>| -> Res<()> {
-        check_block(mem, p, Some(frontier), from)?;
-        *refs.entry(p).or_insert(0) += 1;
-        match state.get(&p) {
+    let mut visit = |p: u64, st: St, from: From, state: &mut Vec<Option<St>>, work: &mut Vec<u64>, refs: &mut Vec<u32>, accounted: &mut u64| -> Res<()> {
+        if !mem.in_heap(p) || (p - mem.heap_base) % BLOCK != 0 || p >= frontier {
+            check_block(mem, p, Some(frontier), &text(from))?;
+        }
+        let i = idx(p);
+        refs[i] += 1;
+        match state[i] {
             None => {
-                state.insert(p, st);
+                state[i] = Some(st);
+                *accounted += 1;
                 work.push(p);
                 Ok(())
             }
             Some(St::L) => Err(Viol::new(
                 Class::Heap,
-                format!("{from}: block heap+{:#x} is referenced but on the linear free list (use after release)", rel(p)),
+                format!("{}: block heap+{:#x} is referenced but on the linear free list (use after release)", text(from), rel(p)),
             )),
             Some(St::D) => Err(Viol::new(
                 Class::Heap,
-                format!("{from}: block heap+{:#x} is referenced but on the deferred free list (use after release)", rel(p)),
+                format!("{}: block heap+{:#x} is referenced but on the deferred free list (use after release)", text(from), rel(p)),
             )),
             Some(_) => Ok(()),
         }
@@ -150,7 +171,7 @@ pub fn check_heap(mem: &Mem, heap_reg: V, free_reg: V, roots: &[(usize, V)]) -> 
             return Err(Viol::new(Class::Heap, format!("root of variable at position {pos} is undefined")));
         }
         if rv.v != 0 {
-            visit(rv.v, St::R, &format!("root at position {pos}"), &mut state, &mut work, &mut refs)?;
+            visit(rv.v, St::R, From::Root(*pos), &mut state, &mut work, &mut refs, &mut accounted)?;
         }
     }
     let mut r = 0usize;
@@ -159,7 +180,7 @@ pub fn check_heap(mem: &Mem, heap_reg: V, free_reg: V, roots: &[(usize, V)]) -> 
         for f in 0..3u64 {
             let p = word(mem, b + 16 + 16 * f, "field of reachable block")?;
             if p != 0 {
-                visit(p, St::R, &format!("field {f} of block heap+{:#x}", rel(b)), &mut state, &mut work, &mut refs)?;
+                visit(p, St::R, From::Field(f, b), &mut state, &mut work, &mut refs, &mut accounted)?;
             }
         }
     }
@@ -169,7 +190,7 @@ pub fn check_heap(mem: &Mem, heap_reg: V, free_reg: V, roots: &[(usize, V)]) -> 
         for f in 0..3u64 {
             let p = word(mem, *b + 16 + 16 * f, "field of deferred block")?;
             if p != 0 {
-                visit(p, St::W, &format!("field {f} of deferred block heap+{:#x}", rel(*b)), &mut state, &mut work, &mut refs)?;
+                visit(p, St::W, From::DField(f, *b), &mut state, &mut work, &mut refs, &mut accounted)?;
             }
         }
     }
@@ -178,27 +199,20 @@ pub fn check_heap(mem: &Mem, heap_reg: V, free_reg: V, roots: &[(usize, V)]) -> 
         for f in 0..3u64 {
             let p = word(mem, b + 16 + 16 * f, "field of waiting block")?;
             if p != 0 {
-                visit(p, St::W, &format!("field {f} of waiting block heap+{:#x}", rel(b)), &mut state, &mut work, &mut refs)?;
+                visit(p, St::W, From::WField(f, b), &mut state, &mut work, &mut refs, &mut accounted)?;
             }
         }
     }
     // cover
-    if (state.len() as u64) != nblocks {
+    if accounted != nblocks {
         // find a lost block for the message
-        let mut lost = None;
-        for i in 0..nblocks {
-            let a = mem.heap_base + i * BLOCK;
-            if !state.contains_key(&a) {
-                lost = Some(a);
-                break;
-            }
-        }
+        let lost = state.iter().position(|s| s.is_none()).map(|i| mem.heap_base + i as u64 * BLOCK);
         return Err(Viol::new(
             Class::Heap,
             format!(
                 "leak: {} blocks below the frontier but only {} accounted for (L={} D={} R={} W={}); first lost block heap+{:#x}",
                 nblocks,
-                state.len(),
+                accounted,
                 l.len(),
                 d.len(),
                 r,
@@ -209,20 +223,23 @@ pub fn check_heap(mem: &Mem, heap_reg: V, free_reg: V, roots: &[(usize, V)]) -> 
     }
     // exact counts
     let mut counts = BTreeMap::new();
-    for (b, st) in &state {
-        if *st == St::R || *st == St::W {
-            let h = word(mem, *b, "header")?;
-            let n = refs.get(b).copied().unwrap_or(0);
-            counts.insert(*b, h);
+    for (i, st) in state.iter().enumerate() {
+        if *st == Some(St::R) || *st == Some(St::W) {
+            let b = mem.heap_base + i as u64 * BLOCK;
+            let h = word(mem, b, "header")?;
+            let n = refs[i] as u64;
+            if want_counts {
+                counts.insert(b, h);
+            }
             if h.wrapping_add(1) != n {
                 return Err(Viol::new(
                     Class::Heap,
-                    format!("block heap+{:#x}: stored count {} but {} reference(s) exist (expected stored = references - 1)", rel(*b), h as i64, n),
+                    format!("block heap+{:#x}: stored count {} but {} reference(s) exist (expected stored = references - 1)", rel(b), h as i64, n),
                 ));
             }
         }
     }
-    Ok(HeapShape { frontier, l, d, r, w, counts, refs })
+    Ok(HeapShape { frontier, l, d, r, w, counts })
 }
 
 /// Tolerant variant used by the footprint monitor once the strict invariant is already broken
@@ -284,7 +301,7 @@ pub fn loose_shape(mem: &Mem, heap_reg: V, free_reg: V, roots: &[(usize, V)]) ->
         }
     }
     let w = reach(from_d, &mut seen);
-    Some(HeapShape { frontier, l, d, r, w, counts: Default::default(), refs: Default::default() })
+    Some(HeapShape { frontier, l, d, r, w, counts: Default::default() })
 }
 
 /// C10 state carried across markers of one execution
